@@ -1,4 +1,70 @@
+import Bxh.Gen.MapRanges
 import Bxh.Model.Exec
+/-!
+# C01 — block execution is deterministic across replicas, runs and restarts
+
+The Lean model of block execution is a function of (configuration, ledger, block): whatever the
+correspondence run shows to agree with it is thereby deterministic.  What the model abstracts
+away — Go's randomised map iteration, goroutine scheduling of proof / signature verification,
+in-memory caches surviving or not surviving a restart — is covered in two ways.
+
+1. `Bxh.Gen.mapRanges` is regenerated from /repo on every run: every `for … range <map>` of the
+   block-execution packages with what its body does with the iteration order.  The table
+   theorems below are re-checked against it: every loop whose body appends / builds a string is
+   followed by a sort, and every loop that writes state or posts events is one of the reviewed
+   ones (each writes under a key derived from the map key, so the order cannot matter).  A new
+   order-dependent loop breaks one of them.  (Three such loops were genuine defects and were
+   repaired: the notify lists of a failed group, the children of a timed-out group.)
+2. The correspondence run executes every history on three replicas with different local tuning,
+   one of which is stopped and reopened at random places, and compares every block line.
+-/
 namespace Bxh.Props.C01
-theorem C01_placeholder : True := trivial
+open Bxh.Gen
+
+/-- loops that append in map order without a later sort, reviewed one by one:
+* `registerBoltContracts` collects the registered contracts into a slice that is immediately turned into a map;
+* `BeginMultiTXs` loop 1 fills `StatusChange.ChildIBTPIDs`, which the interchain contract reads only for receipts (where
+  `Report` builds it sorted); for a request it is unused;
+* `SimpleLedger.Logs` serves the log query API, not block execution. -/
+def reviewedUnsortedAppends : List (String × String × Nat) := [
+  ("internal/executor", "BlockExecutor.registerBoltContracts", 0),
+  ("internal/executor/contracts", "TransactionManager.BeginMultiTXs", 1),
+  ("internal/ledger", "SimpleLedger.Logs", 0)]
+
+/-- loops that write state / call other contracts per map entry, each under a key derived from the map key -/
+def reviewedWriters : List (String × String × Nat) := [
+  ("internal/executor", "BlockExecutor.setTimeoutList", 0), ("internal/executor", "BlockExecutor.setTimeoutList", 1),
+  ("internal/executor/contracts", "AppchainManager.checkInfo", 0),
+  ("internal/executor/contracts", "DappManager.freeContractAddr", 0), ("internal/executor/contracts", "DappManager.occupyContractAddr", 0),
+  ("internal/executor/contracts", "GovStrategy.Manage", 0), ("internal/executor/contracts", "NodeManager.checkNodeInfo", 0),
+  ("internal/ledger", "AccountCache.add", 0), ("internal/ledger", "SimpleLedger.Commit", 0), ("internal/ledger", "revertJournal", 0)]
+
+def key (m : MapRange) : String × String × Nat := (m.pkg, m.func, m.n)
+
+/-- **every order-carrying map loop is sorted afterwards** (or is one of the three reviewed ones) -/
+theorem C01_appending_map_loops_are_sorted :
+    mapRanges.all (fun m => !m.appends || m.sorted || reviewedUnsortedAppends.contains (key m)) = true := by decide +kernel
+
+/-- **every state-writing map loop is a reviewed one** -/
+theorem C01_writing_map_loops_are_reviewed :
+    mapRanges.all (fun m => m.calls.isEmpty || reviewedWriters.contains (key m)) = true := by decide +kernel
+
+/-- the reviewed lists contain nothing stale: each entry still names a loop of the current source -/
+theorem C01_reviewed_entries_exist :
+    (reviewedUnsortedAppends ++ reviewedWriters).all (fun k => mapRanges.any (fun m => key m == k)) = true := by decide +kernel
+
+/-- the three loops repaired by `fix:` commits are in the table and sorted now -/
+theorem C01_repaired_loops_sorted :
+    (mapRanges.filter (fun m => (m.func == "TransactionManager.Report" || m.func == "BlockExecutor.getTimeoutIBTPsMap" ||
+        (m.func == "TransactionManager.BeginMultiTXs" && m.n == 0)) && m.appends)).all (·.sorted) = true ∧
+    (mapRanges.filter (fun m => m.func == "BlockExecutor.getTimeoutIBTPsMap" && m.appends)).length = 1 := by decide +kernel
+
+open Bxh Bxh.Exec in
+/-- the model of block execution is a function: two replicas that start from the same ledger and
+execute the same block compute the same node state and the same block results (trivial for a
+Lean function; stated so that the claim "agreement with the model ⇒ determinism" is explicit) -/
+theorem C01_model_is_a_function (cfg : Cfg) (n₁ n₂ : Node) (txs₁ txs₂ : List (Tx × Bool))
+    (hn : n₁ = n₂) (ht : txs₁ = txs₂) : execBlock cfg n₁ txs₁ = execBlock cfg n₂ txs₂ := by
+  subst hn; subst ht; rfl
+
 end Bxh.Props.C01
